@@ -1,29 +1,34 @@
 package verifsim
 
+// safetyRun: the hostile-network family, one run in six with a directed restart prefix.
+func safetyRun(arm func(*Sim)) func(*Tape, bool) *RunResult {
+	return mixRun(6, directedRestartRun(arm), simpleRun(SafetyScenario, arm))
+}
+
 func init() {
 	register(&PropSpec{
 		ID: "C01",
-		Run: simpleRun(SafetyScenario, func(s *Sim) {
+		Run: safetyRun(func(s *Sim) {
 			s.AddOracle(NewOracleC01(s))
 		}),
 		Rule: "a run is non-trivial iff >= 2 honest nodes accepted a block at one height while a faulty participant existed or a partition/faction fault was active; distinct = distinct ordered delivery sequences (hash of (recipient, payload hash) in delivery order)",
 	})
 	register(&PropSpec{
 		ID: "C02",
-		Run: simpleRun(SafetyScenario, func(s *Sim) {
+		Run: safetyRun(func(s *Sim) {
 			s.AddOracle(NewOracleC02(s))
 		}),
 		Rule: "a run is non-trivial iff some node accepted a (pre)block while it held a (pre)commit that reached it before its proposal, from another view, or that does not verify; distinct = distinct ordered delivery sequences",
 	})
-	register(&PropSpec{ID: "C03", Run: simpleRun(SafetyScenario, func(s *Sim) { s.AddOracle(NewOracleC03(s)) }),
+	register(&PropSpec{ID: "C03", Run: safetyRun(func(s *Sim) { s.AddOracle(NewOracleC03(s)) }),
 		Rule: "a run is non-trivial iff a node that had broadcast a commit or pre-commit subsequently received a timeout, a change-view request or recovery traffic at that height; distinct = distinct ordered delivery sequences"})
-	register(&PropSpec{ID: "C04", Run: simpleRun(SafetyScenario, func(s *Sim) { s.AddOracle(NewOracleC04(s)) }),
+	register(&PropSpec{ID: "C04", Run: safetyRun(func(s *Sim) { s.AddOracle(NewOracleC04(s)) }),
 		Rule: "a run is non-trivial iff some commit/pre-commit was sent with exactly M matching preparations or some view was entered with change-view requests from exactly M validators; distinct = distinct ordered delivery sequences"})
-	register(&PropSpec{ID: "C05", Run: simpleRun(SafetyScenario, func(s *Sim) { s.AddOracle(NewOracleC05(s)) }),
+	register(&PropSpec{ID: "C05", Run: safetyRun(func(s *Sim) { s.AddOracle(NewOracleC05(s)) }),
 		Rule: "a run is non-trivial iff an API call hit a decided-but-not-reset node, or a Reset skipped heights or changed the validator count, or a payload for a future height arrived from a validator that only the grown validator list of that height contains; distinct = distinct ordered delivery sequences"})
 	register(&PropSpec{ID: "C07", Run: simpleRun(AMEVScenario, func(s *Sim) { s.AddOracle(NewOracleC07(s)) }),
 		Rule: "a run is non-trivial iff a (pre)commit arrived before its proposal, a (pre)block callback failed, or the run crossed the enabling height; distinct = distinct ordered delivery sequences"})
-	register(&PropSpec{ID: "C10", Run: simpleRun(SafetyScenario, func(s *Sim) { s.AddOracle(NewOracleC10(s)) }),
+	register(&PropSpec{ID: "C10", Run: safetyRun(func(s *Sim) { s.AddOracle(NewOracleC10(s)) }),
 		Rule: "a run is non-trivial iff a nested view change (two or more views inside one call) or a recovery-request timeout (skip change view) occurred; distinct = distinct ordered delivery sequences"})
 	register(&PropSpec{ID: "C12", Run: simpleRun(TxScenario, func(s *Sim) { s.AddOracle(NewOracleC12(s)) }),
 		Rule: "a run is non-trivial iff (a) a proposal with missing transactions was accepted (and requested) inside an OnTransaction call, i.e. while completing an earlier proposal (counted separately as oracle_notes.obligation_opened_inside_OnTransaction), or (b) the last supplied transaction completed a block that failed verification and was answered by a change-view request, or (c) a requested transaction was supplied after a timeout or another consensus payload had had an effect on the node; distinct = distinct ordered delivery sequences"})
